@@ -124,7 +124,11 @@ func (db *PreparedStmtDB) prepare(ctx context.Context, conn ConnPool, isTransact
 	if err != nil {
 		cacheStmt.prepareErr = err
 		db.Mux.Lock()
-		delete(db.Stmts, query)
+		// only remove our own entry: another goroutine may have cached its
+		// statement for the same text meanwhile
+		if db.Stmts[query] == &cacheStmt {
+			delete(db.Stmts, query)
+		}
 		db.Mux.Unlock()
 		return Stmt{}, err
 	}
